@@ -878,6 +878,13 @@ class FragmentSender(object):
         else:
             self.acks[index] = success
 
+            # once every fragment is acked or timed out report to the user
+            if all(ack is not None for ack in self.acks):
+                self.conn.pending_fragments.pop(self.frag_id, None)
+                if self.user_callback:
+                    callback, self.user_callback = self.user_callback, None
+                    callback(all(self.acks))
+
     @staticmethod
     def parsePayload(payload):
         hdr = payload[:6]
